@@ -10,6 +10,7 @@ import (
 	"encoding/json"
 	"fmt"
 	"math"
+	"math/rand"
 	"os"
 	"reflect"
 	"strconv"
@@ -29,6 +30,8 @@ type modelDoc struct {
 	Kind       string              `json:"kind"`
 	Values     map[string]modelVal `json:"values"`
 }
+
+var fuzzed = map[string]float64{}
 
 var (
 	model      modelDoc
@@ -78,7 +81,29 @@ func Uint64(name string, idx ...int) uint64 {
 	return i
 }
 func Uint8(name string, idx ...int) uint8 { return uint8(Uint64(name, idx...)) }
+// fuzzFloats: when set, float inputs are re-drawn at random (see RunReplay)
+var fuzzFloats *rand.Rand
+
 func Float64(name string, idx ...int) float64 {
+	if fuzzFloats != nil {
+		k := key(name, idx)
+		if f, ok := fuzzed[k]; ok {
+			return f
+		}
+		var f float64
+		switch fuzzFloats.Intn(4) {
+		case 0:
+			f = float64(fuzzFloats.Intn(64)) / 8
+		case 1:
+			f = 1 + fuzzFloats.Float64()*1000
+		case 2:
+			f = fuzzFloats.Float64()
+		default:
+			f = float64(1 + fuzzFloats.Intn(1_000_000))
+		}
+		fuzzed[k] = f
+		return f
+	}
 	v, ok := lookup(name, idx)
 	if !ok {
 		return 0
@@ -206,7 +231,8 @@ func RunReplay(t *testing.T, path string, fn func()) {
 		t.Fatalf("VERIF-REPLAY: error parsing model: %v", err)
 	}
 	var escaped interface{}
-	func() {
+	runOnce := func() {
+		escaped, failedIDs, assumeFail = nil, nil, false
 		defer func() {
 			if r := recover(); r != nil {
 				switch r.(type) {
@@ -217,7 +243,28 @@ func RunReplay(t *testing.T, path string, fn func()) {
 			}
 		}()
 		fn()
-	}()
+	}
+	reproduced := func() bool {
+		for _, id := range failedIDs {
+			if id == model.Obligation {
+				return true
+			}
+		}
+		return model.Kind == "nopanic" && escaped != nil
+	}
+	runOnce()
+	if !reproduced() && os.Getenv("VERIF_FUZZ_FLOATS") != "" {
+		// the counterexample came from an abstraction of float arithmetic (uninterpreted / relaxed): keep its
+		// integer, boolean and string inputs and re-draw the float inputs until a concrete instance fails
+		fuzzFloats = rand.New(rand.NewSource(1))
+		for i := 0; i < 400 && !reproduced(); i++ {
+			fuzzed = map[string]float64{}
+			runOnce()
+		}
+		if reproduced() {
+			fmt.Printf("VERIF-REPLAY: float inputs re-drawn: %v\n", fuzzed)
+		}
+	}
 	hit := false
 	for _, id := range failedIDs {
 		if id == model.Obligation {
